@@ -33,8 +33,8 @@ import (
 	"os"
 	"runtime/debug"
 	"runtime/pprof"
-	"strconv"
 	"sort"
+	"strconv"
 	"strings"
 	"sync"
 	"unicode/utf8"
@@ -52,7 +52,7 @@ func main() {
 	// core.Guard contains; nothing is ever printed through the log package by this binary.
 	log.SetFlags(0)
 	log.SetOutput(fatalTrap{})
-	debug.SetGCPercent(400) // millions of short-lived parses; memory is not the constraint
+	debug.SetGCPercent(400)                        // millions of short-lived parses; memory is not the constraint
 	if f := os.Getenv("C10_CPUPROFILE"); f != "" { // debugging aid
 		w, err := os.Create(f)
 		if err == nil {
@@ -119,20 +119,18 @@ type finding struct{ key, what string }
 
 // stats are per-goroutine counters merged into the evidence.
 type stats struct {
-	cases, nontrivial              int64
-	probes, scans, codepoints      int64
-	unspecified                    int64
-	langChecked, alphabetCapped    int64
-	outcomes                       map[string]int64
-	unspecBy                       map[string]int64
-	tags                           map[string]int64
-	maxClasses                     int
-	refAccept, refReject           int64
-	repeatLimitSkipped             int64
-	surrogateCellsSkipped          int64
-	samples                        []Case
-	perPart                        map[string]int64
-	implAcceptUnspec, implRejUnspc int64
+	cases, nontrivial           int64
+	probes, scans, codepoints   int64
+	unspecified                 int64
+	langChecked, alphabetCapped int64
+	outcomes                    map[string]int64
+	unspecBy                    map[string]int64
+	tags                        map[string]int64
+	maxClasses                  int
+	refAccept, refReject        int64
+	repeatLimitSkipped          int64
+	surrogateCellsSkipped       int64
+	perPart                     map[string]int64
 }
 
 func newStats() *stats {
@@ -326,7 +324,7 @@ func (d *langDiff) String() string {
 
 // compare decides language equality of node (whose leaves are numbered in `leaves`) against the
 // compiled tables. scan selects the additional single-unit sweeps of part (b).
-func compare(node *rxparse.Node, leaves []*rxparse.Node, t *lex.Tables, bytes bool, scan string, st *stats) (diff *langDiff, sawYes, sawNo bool) {
+func compare(node *rxparse.Node, leaves []*rxparse.Node, maxRepeat int, t *lex.Tables, bytes bool, scan string, st *stats) (diff *langDiff, sawYes, sawNo bool) {
 	classes, has := partition(leaves, t, bytes, st)
 	impl := implLang{t: t, st: st, bytes: bytes}
 	if len(classes) > st.maxClasses {
@@ -391,6 +389,45 @@ func compare(node *rxparse.Node, leaves []*rxparse.Node, t *lex.Tables, bytes bo
 	}
 	if capped {
 		st.alphabetCapped++
+	}
+	if maxRepeat >= 3 {
+		// Words of length <= 3 cannot tell a{4} from a{5}: add the powers x^k and (xy)^k up to
+		// maxRepeat+2 (at most 20 units) over the first three classes.
+		n := len(order)
+		if n > 3 {
+			n = 3
+		}
+		limit := maxRepeat + 2
+		if limit > 20 {
+			limit = 20
+		}
+		var periods [][]int
+		for a := 0; a < n; a++ {
+			periods = append(periods, []int{order[a]})
+		}
+		for a := 0; a < n && a < 2; a++ {
+			for b := 0; b < n && b < 2; b++ {
+				if a != b {
+					periods = append(periods, []int{order[a], order[b]})
+				}
+			}
+		}
+		for _, per := range periods {
+			for length := 4; length <= limit; length++ {
+				long := make([]int, length)
+				lu := make([]rune, length)
+				for i := range long {
+					long[i] = per[i%len(per)]
+					lu[i] = classes[long[i]].rep
+				}
+				st.probes++
+				r := rxparse.Matches(node, long, has)
+				i := impl.accepts(unitString(bytes, lu...))
+				if r != i {
+					return &langDiff{word: lu, ref: r, impl: i}, sawYes, sawNo
+				}
+			}
+		}
 	}
 	if scan == "" {
 		return nil, sawYes, sawNo
@@ -579,7 +616,7 @@ func checkCase(c Case, st *stats) []finding {
 	}
 
 	st.langChecked++
-	diff, yes, no := compare(ref.Node, ref.Leaves, tables, c.Bytes, c.Scan, st)
+	diff, yes, no := compare(ref.Node, ref.Leaves, ref.MaxRepeat, tables, c.Bytes, c.Scan, st)
 	if diff == nil {
 		st.outcomes["accept:language-equal"]++
 		if yes && no {
@@ -588,7 +625,7 @@ func checkCase(c Case, st *stats) []finding {
 		return nil
 	}
 	st.outcomes["language-mismatch"]++
-	what := describe(c) + ": " + diff.String() + fmt.Sprintf(" (lex prints the pattern as %q)", re.String())
+	what := describe(c) + ": " + diff.String() + fmt.Sprintf(" (lex prints the pattern as %s)", clip(fmt.Sprintf("%q", re.String()), 160))
 
 	// Does one known deviation explain everything?
 	if key := explainedByQuirk(c, opts, true, re); key != "" {
@@ -617,7 +654,7 @@ func checkCase(c Case, st *stats) []finding {
 			if crash != nil || cerr != nil {
 				continue
 			}
-			if d, _, _ := compare(aref.Node, aref.Leaves, at, c.Bytes, "", newStats()); d != nil {
+			if d, _, _ := compare(aref.Node, aref.Leaves, aref.MaxRepeat, at, c.Bytes, "", newStats()); d != nil {
 				suffix := ""
 				if fold {
 					suffix = ":fold"
@@ -652,11 +689,18 @@ func explainedByQuirk(c Case, opts rxparse.Opts, implOK bool, re *lex.Regexp) st
 		if alt.MaxRepeat > 16 {
 			continue
 		}
-		if d, _, _ := compare(alt.Node, alt.Leaves, tables, c.Bytes, c.Scan, newStats()); d == nil {
+		if d, _, _ := compare(alt.Node, alt.Leaves, alt.MaxRepeat, tables, c.Bytes, c.Scan, newStats()); d == nil {
 			return q.key
 		}
 	}
 	return ""
+}
+
+func clip(s string, n int) string {
+	if len(s) > n {
+		return s[:n] + "…"
+	}
+	return s
 }
 
 func firstLine(s string) string {
